@@ -334,6 +334,10 @@ def obligations(tier, seed):
             r["key"] = "mirsym:c02:subscription-response-delivered-outside-the-array"
             r["replay"] = {"scenario": "c02_ws_batch_with_subscription", "args": {"entries": ["sub", "call"]}}
         out.append(r)
+    # "however the server is assembled": the configured value survives every builder step
+    from .cfgframe import journey_obligations as _journey
+    _extra = _journey(R.bodies("server"), "batch_requests_config", "set_batch_request_config", scenario="cfg_journey", fixed={"field": "batch_requests_config"})
+    out += _extra
     return out
 
 
